@@ -131,6 +131,7 @@ struct Peer {
 	bool wait_returned_success = false;
 	bool notify_consumed = false;
 	bool may_downgrade = false;
+	bool expect_immediate_open = false;
 	uint64_t trigger_ns = 0;
 	int pending_downgrade = 0; // C13: a licensed trigger was observed; next PDU sent must carry this version (+1 offset), 0 = none
 	bool c03_pending = false; // after a listed failure with records kept: next query must equal at_query expectation
